@@ -169,6 +169,29 @@ example :
       flatAA 2 3 (readTb (writeTb id s true true) true true none).aa = flatAA 2 3 s.aa := by
   decide +kernel
 
+/-- T2e.  Structured sparsity: an R-vector whose Hamiltonian block vanishes identically is written and read back
+    like every other one — the R list comes back complete and in order, and the AA block of that R-vector is the
+    printed value of the original (no convention switch, centres handed to the reader). -/
+theorem tb_keeps_R_with_zero_ham {K : Type} [Field K] (ρ : K → K) (s : Sys K) (h0 : iR0 s.Rs < s.Rs.length)
+    (ir : Nat) (hir : ir < s.Rs.length) (_hzero : ∀ m n, m < s.nw → n < s.nw → s.ham ir m n = (0, 0)) :
+    let r := readTb (writeTb ρ s true false) true false (some s.wcc)
+    r.Rs = s.Rs ∧ ∀ m n c, m < s.nw → n < s.nw → c < 3 → r.aa ir m n c = (ρ (s.aa ir m n c).1, ρ (s.aa ir m n c).2) := by
+  intro r
+  exact ⟨(tb_roundtrip_ham ρ s true false true false (some s.wcc)).2.1,
+    fun m n c hm hn hc => (tb_roundtrip_noswitch ρ s h0).2 ir m n c hir hm hn hc⟩
+
+/-- T2e'.  Counterexample for the rule "do not write R-vectors with Ham(R) = 0": a 1-orbital system with
+    R = 0, (1,0,0), (-1,0,0), Ham only at R = 0 but AA also at ±(1,0,0) (and it satisfies the hypotheses of T2e):
+    the file of the dropping writer reads back with ONE R-vector, the code's file with all three and their AA. -/
+theorem dropping_zero_ham_loses_AA :
+    let s : Sys Rat := mkSys 1 [(0, 0, 0), (1, 0, 0), (-1, 0, 0)] [1, 0, 0, 0, 1, 0, 0, 0, 1] [0, 0, 0]
+      [3, 0, 0, 0, 0, 0] [0, 0, 0, 0, 0, 0, 1, 2, 0, 0, 0, 0, 1, -2, 0, 0, 0, 0]
+    (∀ m < s.nw, ∀ n < s.nw, s.ham 1 m n = (0, 0)) ∧ iR0 s.Rs < s.Rs.length ∧
+    (readTb (writeTb id (dropZeroHam s) true false) true false (some s.wcc)).Rs = [(0, 0, 0)] ∧
+    (readTb (writeTb id s true false) true false (some s.wcc)).Rs = s.Rs ∧
+    (readTb (writeTb id s true false) true false (some s.wcc)).aa 1 0 0 0 = (1, 2) := by
+  decide +kernel
+
 /-! ## npz directory -/
 
 /-- T4.  `load_npz ∘ to_npz` on the dictionary level, for EVERY order in which the directory is listed:
